@@ -152,6 +152,30 @@ def read_members(path, method):
     return recs, ok
 
 
+class SplitHang(BaseException):
+    """Raised by the driver's watchdog inside a bamSplitByTag run that does not end."""
+
+
+def _alarm(signum, frame):
+    raise SplitHang()
+
+
+class PassCounter(io.StringIO):
+    """stdout sink of an in-process bamSplitByTag run: counts the passes and stops a run that makes too many."""
+
+    def __init__(self, cap):
+        super().__init__()
+        self.cap, self.passes = cap, 0
+
+    def write(self, text):
+        n = text.count('Iteration ')
+        if n:
+            self.passes += n
+            if self.passes > self.cap:
+                raise SplitHang()
+        return len(text)
+
+
 class SerialPool:
     """Stand-in for multiprocessing.Pool in bamSplitByTag's indexing step (in-process runs only)."""
 
@@ -198,6 +222,8 @@ def run_scenario(hl_mod, fh_mod, workdir, scn, src, method, det_clock):
     paired = bool(scn.get('paired')) and via_fq      # (R1, R2) pairs: two limiter writes per FastqHandle.write call
 
     def path_of(p):
+        if via_fq and p in (998, 999):               # file of records without cell tags (pre-formatted strings)
+            return '%s.no_cell_id.unk.R%d.fastq.gz' % (prefix, p - 997)
         if via_fq and p > 500:                       # mate-2 file of cell p - 500
             return '%s.%s.%s.R2.fastq.gz' % (prefix, cell_of(p - 500), mx)
         if via_fq:
@@ -213,6 +239,11 @@ def run_scenario(hl_mod, fh_mod, workdir, scn, src, method, det_clock):
         ids[path_of(p)] = p
         if paired and p <= 500:
             ids[path_of(p + 500)] = p + 500
+    if paired:
+        ids[path_of(998)] = 998
+        ids[path_of(999)] = 999
+    cells = sorted(set(o['p'] for o in scn['ops'] if o['op'] == 'w')) or [1]
+    intended = {}        # payload -> path id of the file the record BELONGS to (the cell of the record itself)
     # files of an "earlier run" that already exist at some target paths: one stale record 0
     for p in scn.get('stale', []):
         if via_fq or method == 1:
@@ -246,12 +277,15 @@ def run_scenario(hl_mod, fh_mod, workdir, scn, src, method, det_clock):
         def recording_write(path, string, method=None, forceAppend=False):
             inj.att = []
             x = int(string) if string.strip().isdigit() else 0
+            # p = the file the record belongs to according to the driver's description of the record (its own cell tags),
+            # not the file the code chose; for an empty record the chosen file is taken
+            pid = intended.get(x, path_id(path))
             try:
                 inner_write(path, string, method=method, forceAppend=forceAppend)
             except Exception as ex:
-                observe('w', path_id(path), x, type(ex).__name__)
+                observe('w', pid, x, type(ex).__name__)
                 raise
-            observe('w', path_id(path), x, 'none')
+            observe('w', pid, x, 'none')
         lim.write = recording_write
     for o in scn['ops']:
         inj.att = []
@@ -262,8 +296,22 @@ def run_scenario(hl_mod, fh_mod, workdir, scn, src, method, det_clock):
                 if o['op'] == 'w':
                     if via_fq:
                         recs = [Rec(cell_of(o['p']), o['x'], mx)]
+                        if o['x']:
+                            intended[o['x']] = o['p']
                         if paired:
-                            recs.append(Rec(cell_of(o['p']), o['x'] + 100000 if o['x'] else 0, mx))
+                            x2 = o['x'] + 100000 if o['x'] else 0
+                            kind = o['x'] % 4 if o['x'] else 2
+                            if kind == 0:        # the mate carries the tags of ANOTHER cell: it belongs to that cell's file
+                                p2 = cells[(cells.index(o['p']) + 1) % len(cells)]
+                                recs.append(Rec(cell_of(p2), x2, mx))
+                                intended[x2] = p2 + 500
+                            elif kind == 1:      # an already formatted mate (plain string, no tags): the no_cell_id.unk file
+                                recs.append('%d\n' % x2)
+                                intended[x2] = 999
+                            else:
+                                recs.append(Rec(cell_of(o['p']), x2, mx))
+                                if x2:
+                                    intended[x2] = o['p'] + 500
                         fh.write(recs)
                     else:
                         lim.write(path_of(o['p']), '%d\n' % o['x'] if o['x'] else '', method=method)
@@ -321,15 +369,23 @@ def split_case(rng, workdir, k):
     os.makedirs(workdir)
     nvals = rng.randint(1, 6)
     maxh = rng.choice([1, 1, 2, 2, 3, nvals, nvals + 1])
+    deep = rng.random() < 0.3        # more than 2 * max_handles distinct values, all present: at least 3 passes
+    if deep:
+        maxh = rng.choice([1, 1, 2])
+        nvals = 2 * maxh + rng.randint(1, 2)
     n = rng.choice([0, 1, 1, 2]) if rng.random() < 0.15 else rng.randint(1, 24)     # also the empty and the one-record input
     header = bamgen.make_header([('chrA', 10000)])
     vals = [rng.choice([0] + list(range(1, nvals + 1)) * 3) for _ in range(n)]     # 0 = record without the tag
+    if deep:
+        first = list(range(1, nvals + 1))
+        rng.shuffle(first)
+        vals = first + vals
     # distinct raw tag values may sanitise (get_valid_filename) to the same file name: fmap[v] = file of raw value v
     # (canonical numbering); the raw strings are built FROM this map: 'cell_<f>', 'cell <f>', 'cell_<f>!', ' cell_<f>'
     fmap, used = [], {}
     for v in range(1, nvals + 1):
         top = max(fmap) if fmap else 0
-        f = top + 1 if (not fmap or rng.random() < 0.6 or used.get(top, 0) >= 4) else rng.randint(1, top)
+        f = top + 1 if (deep or not fmap or rng.random() < 0.6 or used.get(top, 0) >= 4) else rng.randint(1, top)
         if used.get(f, 0) >= 4:
             f = top + 1
         fmap.append(f)
@@ -367,17 +423,28 @@ def split_case(rng, workdir, k):
         # unmodified command line in a child process (`-m`): its __main__ must be the module itself because the
         # indexing step pickles a module-level function for a multiprocessing pool
         import subprocess
-        cp = subprocess.run([sys.executable, '-m', 'singlecellmultiomics.bamProcessing.bamSplitByTag'] + args,
-                            stdout=subprocess.PIPE, stderr=subprocess.PIPE, text=True, timeout=300)
-        raised = 'none' if cp.returncode == 0 else 'exit%d' % cp.returncode
-        passes = [cp.stdout.count('Iteration ')]
+        # watchdog: a tool that does not end is an observation ('Hang'), the files written so far are recorded
+        try:
+            cp = subprocess.run([sys.executable, '-m', 'singlecellmultiomics.bamProcessing.bamSplitByTag'] + args,
+                                stdout=subprocess.PIPE, stderr=subprocess.PIPE, text=True, timeout=90)
+            raised = 'none' if cp.returncode == 0 else 'exit%d' % cp.returncode
+            passes = [cp.stdout.count('Iteration ')]
+        except subprocess.TimeoutExpired as ex:
+            raised = 'Hang'
+            so = ex.stdout if isinstance(ex.stdout, str) else (ex.stdout or b'').decode(errors='replace')
+            passes = [so.count('Iteration ')]
     else:
         # in-process: the module's `__main__` block is executed by runpy; the process pool that only builds the .bai
         # files is replaced by a serial stand-in (a pickled __main__.index_bam would not resolve in this process)
         import multiprocessing
         import runpy
+        import signal
         saved_pool, saved_argv = multiprocessing.Pool, sys.argv
-        sink = io.StringIO()
+        # watchdog: every value needs at most one pass, so more than (#values + 3) passes - or 30 s - means the tool does
+        # not end; the pass counter sits in the stdout sink ('Iteration <n>' is printed by the tool once per pass)
+        sink = PassCounter(nvals + 3)
+        old_handler = signal.signal(signal.SIGALRM, _alarm)
+        signal.alarm(30)
         raised = 'none'
         try:
             multiprocessing.Pool = SerialPool
@@ -385,11 +452,15 @@ def split_case(rng, workdir, k):
             sys.modules.pop('singlecellmultiomics.bamProcessing.bamSplitByTag', None)
             with contextlib.redirect_stdout(sink):
                 runpy.run_module('singlecellmultiomics.bamProcessing.bamSplitByTag', run_name='__main__')
+        except SplitHang:
+            raised = 'Hang'
         except Exception as ex:
             raised = type(ex).__name__
         finally:
+            signal.alarm(0)
+            signal.signal(signal.SIGALRM, old_handler)
             multiprocessing.Pool, sys.argv = saved_pool, saved_argv
-        passes = [sink.getvalue().count('Iteration ')]
+        passes = [sink.passes]
     out = []
     import pysam
     if os.path.isdir(outdir):
